@@ -213,6 +213,9 @@ func (g *Galaxy) resolveNetworks(req *galaxyapi.PodRequest, pod *corev1.Pod) ([]
 		}
 		//init networkInfo
 		for idx, network := range networks {
+			if network == nil {
+				return nil, fmt.Errorf("invalid pod network annotation %s: empty network element", v)
+			}
 			netConf, err := g.getNetworkConf(network.Name)
 			if err != nil {
 				return nil, err
